@@ -14,8 +14,10 @@ namespace Jade.Sys
 
 theorem live4_step {s s' : Sys} {op : Op} (hc : CapInv s) (hp : ProgA s) (h0 : Live0 s) (h2 : Live2 s)
     (h3 : Live3 s) (hi : Live4 s) (h : stepP s op = some s') : Live4 s' := by
-  obtain ⟨c_diskSub, c_hSub⟩ := live4_step_a hc hp h0 h2 h3 hi h
-  obtain ⟨c_pendBatch, c_quiet⟩ := live4_step_b hc hp h0 h2 h3 hi h
+  have hsb : ∀ p jobs hid, op = Op.sbatch p jobs hid → Live4 s' := fun p jobs hid e => by
+    subst e; exact live4_sbatch hc h0 hi h
+  obtain ⟨c_diskSub, c_hSub⟩ := live4_step_a hc hp h0 h2 h3 hi h hsb
+  obtain ⟨c_pendBatch, c_quiet⟩ := live4_step_b hc hp h0 h2 h3 hi h hsb
   exact ⟨c_diskSub, c_hSub, c_pendBatch, c_quiet⟩
 
 end Jade.Sys
